@@ -928,6 +928,194 @@ func c15Round4b(c *core.Ctx, pkg string) {
 	c15CallbacksDoNotBlock(c, pkg)
 	c15BoltScan(c)
 	c15MemoryPrefixNewest(c)
+	c15Round7(c)
+}
+
+// c15Round7 — four conditions behind seeds of round 7.
+func c15Round7(c *core.Ctx) {
+	p := c.P
+	pkg := core.ModPath + "/std/object"
+	// ---- R15.15 "byte-for-byte": the number of the last segment that Produce announces
+	// (FinalBlockId) is not the floor quotient size / segment-size of the plain size: for a
+	// size that is an exact multiple of the segment size that names a segment that is never
+	// written, and the consumer waits for it. ((size-1)/seg, ceil forms and a counted loop
+	// are all fine; one known-wrong form is reported.)
+	if pr := c.Fn("R15.15", "std/object", "Client", "Produce"); pr != nil {
+		nSeg, bad := 0, ""
+		core.Instrs(pr, func(in ssa.Instruction) {
+			cl, ok := in.(*ssa.Call)
+			if !ok {
+				return
+			}
+			id, ok := core.Callee(&cl.Call)
+			if !ok || id.Name != "NewSegmentComponent" || core.InLoop(cl.Block()) || len(cl.Call.Args) != 1 {
+				return
+			}
+			nSeg++
+			// strip "+1 … -1" pairs and conversions down to the quotient
+			v := core.StripConv(cl.Call.Args[0])
+			adj := int64(0)
+			for i := 0; i < 4; i++ {
+				b, isB := v.(*ssa.BinOp)
+				if !isB || (b.Op != token.ADD && b.Op != token.SUB) {
+					break
+				}
+				k, isK := core.ConstInt(b.Y)
+				if !isK {
+					break
+				}
+				if b.Op == token.ADD {
+					adj += k
+				} else {
+					adj -= k
+				}
+				v = core.StripConv(b.X)
+			}
+			q, isQ := v.(*ssa.BinOp)
+			if !isQ || q.Op != token.QUO {
+				return
+			}
+			if _, isK := core.ConstInt(q.Y); !isK {
+				return
+			}
+			// the dividend: plain size (a phi / sum of lengths / a Length() call) or adjusted
+			num := core.StripConv(q.X)
+			if nb, isB := num.(*ssa.BinOp); isB && (nb.Op == token.ADD || nb.Op == token.SUB) {
+				if _, isK := core.ConstInt(nb.Y); isK {
+					return // (size-1)/seg, (size+seg-1)/seg: adjusted dividend
+				}
+			}
+			if adj == 0 {
+				bad = c.Pos(cl)
+			}
+		})
+		c.Decide(bad == "", "R15.15", "final-segment-number-is-not-the-floor-quotient", p.Pos(pr.Pos()), fmt.Sprintf("%d segment numbers computed outside the segment loop, none is size/segment-size of the unadjusted size", nSeg), "Produce announces as FinalBlockId the floor quotient of the content size by the segment size (at "+bad+"): for a size that is an exact multiple of the segment size that is one more than the last segment written — the consumer requests a segment that does not exist and the fetch ends with an error")
+		c.Floor("R15.15", "segment numbers computed outside the segment loop of Produce", nSeg, 1)
+	}
+	// ---- R15.16 "completion reported exactly once … with an error": Content() slices the
+	// buffer by the window; whoever replaces or drops the buffer resets the window with it.
+	// Every function (other than the one that allocates the state) that stores to
+	// ConsumeState.content as a whole also stores the window.
+	{
+		n, bad := 0, ""
+		for _, fn := range p.FuncsIn(pkg) {
+			if strings.HasSuffix(p.File(fn.Pos()), "_test.go") {
+				continue
+			}
+			var st *ssa.Store
+			wnd := false
+			core.Instrs(fn, func(in ssa.Instruction) {
+				s, ok := in.(*ssa.Store)
+				if !ok {
+					return
+				}
+				switch a := s.Addr.(type) {
+				case *ssa.FieldAddr:
+					if t, f := core.FieldAddrName(a); t == "ConsumeState" && f == "content" && !isFreshObject(a.X) {
+						st = s
+					}
+				case *ssa.IndexAddr:
+					if fa, okF := a.X.(*ssa.FieldAddr); okF {
+						if t, f := core.FieldAddrName(fa); t == "ConsumeState" && f == "wnd" {
+							wnd = true
+						}
+					}
+				}
+			})
+			if st == nil {
+				continue
+			}
+			n++
+			// the first allocation (make sized by the segment count) happens with the
+			// window still at its zero value
+			if _, isMake := core.Strip(st.Val).(*ssa.MakeSlice); isMake {
+				continue
+			}
+			if !wnd {
+				bad = c.Pos(st)
+			}
+		}
+		c.Decide(bad == "", "R15.16", "buffer-and-window-change-together", "-", fmt.Sprintf("%d stores to the segment buffer as a whole, each an allocation or with the window reset alongside", n), "the segment buffer of a ConsumeState is dropped or replaced at "+bad+" while the window that Content() slices it by stays: a completion callback that reads Content() after a failure behind partial progress slices a nil wire and panics instead of seeing the error")
+		c.Floor("R15.16", "stores to ConsumeState.content as a whole", n, 1)
+	}
+	// ---- R15.17 "removed packets no longer served": a scan of the on-disk store over the
+	// keys of a name prefix stays inside the prefix by comparing each key with the prefix
+	// (bytes.HasPrefix): every cursor loop of BoltStore that starts with Seek decides its
+	// continuation by that test. A computed end key (last octet + 1) is wrong where the
+	// octet is 0xff.
+	{
+		n, bad := 0, ""
+		for _, fn := range p.FuncsIn(pkg) {
+			if strings.HasSuffix(p.File(fn.Pos()), "_test.go") || !strings.Contains(core.FuncName(core.RootOf(fn)), "BoltStore") {
+				continue
+			}
+			var seek *ssa.Call
+			hasPrefix := false
+			core.Instrs(fn, func(in ssa.Instruction) {
+				cl, ok := in.(*ssa.Call)
+				if !ok {
+					return
+				}
+				if cal := cl.Call.StaticCallee(); cal != nil {
+					if cal.Name() == "Seek" && cal.Pkg != nil && strings.HasSuffix(cal.Pkg.Pkg.Path(), "bbolt") {
+						seek = cl
+					}
+					if cal.Name() == "HasPrefix" && cal.Pkg != nil && cal.Pkg.Pkg.Path() == "bytes" {
+						for _, r := range *cl.Referrers() {
+							if _, isIf := r.(*ssa.If); isIf {
+								hasPrefix = true
+							}
+							if _, isPhi := r.(*ssa.Phi); isPhi {
+								hasPrefix = true
+							}
+						}
+					}
+				}
+			})
+			if seek == nil {
+				continue
+			}
+			n++
+			if !hasPrefix {
+				bad = c.Pos(seek)
+			}
+		}
+		c.Decide(bad == "", "R15.17", "prefix-scan-compares-with-the-prefix", "-", fmt.Sprintf("%d cursor scans started with Seek, each continued by bytes.HasPrefix", n), "a cursor scan of BoltStore that starts at a prefix key (at "+bad+") is not continued by bytes.HasPrefix(key, prefix): an end key computed from the prefix (last octet + 1, without carry) gives an empty range for names whose encoding ends in 0xff — Remove removes nothing and the version is still served")
+		c.Floor("R15.17", "cursor scans started with Seek in BoltStore", n, 2)
+	}
+	// ---- R15.18 = R15.14's other half: a prefix query of the memory store is answered
+	// from the tree as it is now — every return of a packet by MemoryStore.Get lies behind
+	// the node lookup of this call (no remembered answer of an earlier query: a transaction
+	// commit changes the tree without passing Put's or Remove's invalidation).
+	if fn := c.Fn("R15.18", "std/object", "MemoryStore", "Get"); fn != nil {
+		var look *ssa.Call
+		core.Instrs(fn, func(in ssa.Instruction) {
+			cl, ok := in.(*ssa.Call)
+			if !ok || look != nil {
+				return
+			}
+			cal := cl.Call.StaticCallee()
+			if cal == nil || cal.Signature.Recv() == nil || cal.Signature.Results().Len() != 1 {
+				return
+			}
+			if types.Identical(cal.Signature.Recv().Type(), cal.Signature.Results().At(0).Type()) && cal.Signature.Params().Len() > 0 {
+				look = cl
+			}
+		})
+		stale := ""
+		if look != nil {
+			core.Instrs(fn, func(in ssa.Instruction) {
+				r, isR := in.(*ssa.Return)
+				if !isR || in.Block() == fn.Recover || len(r.Results) == 0 || core.IsNilConst(core.Strip(r.Results[0])) {
+					return
+				}
+				if !core.Precedes(fn, r, func(x ssa.Instruction) bool { return x == ssa.Instruction(look) }) {
+					stale = c.Pos(r)
+				}
+			})
+		}
+		c.Decide(look != nil && stale == "", "R15.18", "memory-get-answers-from-the-tree", p.Pos(fn.Pos()), "every return of a packet lies behind the node lookup of this call", "MemoryStore.Get can return a packet without looking the name up in the tree (return at "+stale+"): an answer remembered from an earlier query survives changes of the tree that bypass its invalidation (a transaction commit), and an older version is served although a newer one was published")
+	}
 }
 
 // c15MemoryPrefixNewest — R15.14 "the newest version, whether from the in-memory or the
